@@ -7,10 +7,38 @@ Local Open Scope N_scope.
 
 (* ---- the tie to the code: src/polyseed.c as TRANSLATED on this run (Gen/CApi.v) ---- *)
 From Coq Require Import String.
-From PS Require Import Base GFDefs PackDefs StoreDefs MiscDefs StrDefs LangDefs ApiDefs GFProofs PackProofs StoreProofs CTieBase CTieLang CTiePhrase CTiePhraseEv CTieSplit CTieApi CTieDecode CTieEncode CTieLocals CTieInject CTieCmp CTieSearch.
+From PS Require Import Base GFDefs PackDefs StoreDefs MiscDefs StrDefs LangDefs ApiDefs SpecDefs SpecApi GFProofs PackProofs StoreProofs RefineProofs CTieBase CTieLang CTiePhrase CTiePhraseEv CTieSplit CTieApi CTieDecode CTieEncode CTieLocals CTieInject CTieCmp CTieSearch CodeTheorems.
 From PS.Gen Require Import Consts PrivConsts Langs.
 From PS.Gen Require CFuns.
 From PS.Gen Require CApi.
+
+(* ON THE CODE: the translated polyseed_crypt applied twice with the same password returns the struct byte for byte - tie composed with C12_involution *)
+Theorem C12_code_tie_involution :
+  forall (sgn : bool) (cs : state) (a : astate) (h : N) (d : data) (pw : bytes) 
+           (fuel : nat) (D : list Z -> list Z * Z),
+         R cs a ->
+         heap_get (st_heap cs) h = Some d ->
+         no_nul pw ->
+         (Datatypes.length pw + 2 <= fuel)%nat ->
+         let dp := st_deps cs in
+         let nf := dp_nfkd dp in
+         D (zs pw) = (zs (fst (nf pw)), Z.of_N (snd (nf pw))) ->
+         snd (nf pw) = N.of_nat (Datatypes.length (fst (nf pw))) ->
+         snd (nf pw) < 2 ^ 64 ->
+         exists (c1 : list CApi.cev) (d1 : data) (c2 : list CApi.cev),
+           CApi.polyseed_crypt fuel sgn D (zkdf dp) CFuns.polyseed_mul2_table (Z.of_N (d_birthday d))
+             (Z.of_N (d_features d)) (map Z.of_N (d_secret d)) (Z.of_N (d_checksum d)) 
+             (zs pw) =
+           Some
+             (c1, Z.of_N (d_birthday d1), Z.of_N (d_features d1), map Z.of_N (d_secret d1),
+              Z.of_N (d_checksum d1)) /\
+           CApi.polyseed_crypt fuel sgn D (zkdf dp) CFuns.polyseed_mul2_table (Z.of_N (d_birthday d1))
+             (Z.of_N (d_features d1)) (map Z.of_N (d_secret d1)) (Z.of_N (d_checksum d1)) 
+             (zs pw) =
+           Some
+             (c2, Z.of_N (d_birthday d), Z.of_N (d_features d), map Z.of_N (d_secret d), Z.of_N (d_checksum d)).
+Proof. exact @code_crypt_twice. Qed.
+Print Assumptions C12_code_tie_involution.
 
 (* polyseed_crypt as translated against the mirror step: one KDF call on the normalised password, the xor of 19 bytes, the cleared top bits, the toggled flag, the new check value, three wipes *)
 Theorem C12_code_tie_api_crypt :
